@@ -1,25 +1,462 @@
 /-
-C01 tie — hook for an EXTENDED VM on real listings (more built-ins: list primitives, comparison, vectors, output).
-NOT BUILT YET: `xCodes` rejects every listing ("no-extension"), so the driver's `XV` line is always `-` and the evidence
-field `units_ext_modelled` is 0.  The measured reasons why whole programs of gen/progs.py are outside the core VM are all
-built-ins (no op code): see `tie_core_model_to_repo.whole.unmodelled_reasons` in evidence/C01.json.  An extension has to
-bring its own value type (strings, symbols, vectors are not in `C01C.V`) and therefore its own copy of `step`; the plan is
-to run both VMs on every core-only listing and require equal outcomes (differential tie to `C01C.step`), or to prove the
-embedding `xstep (embed c) = embed (step c)`.
+C01 tie — the EXTENDED VM for real listings (`XV` line of `c01driver bc`).
+
+Purpose: replay the real bytecode of WHOLE programs (gen/progs.py, corpus) that use built-ins, strings, symbols,
+quoted data, vectors, output and `with-handler`, which the proved core VM (`C01C.step`, values `C01C.V`) cannot hold.
+
+Design (executable Lean, nothing here is proved):
+* VALUES are the values of the reference evaluator S, `Base.Val` (integers, booleans, symbols, strings, characters,
+  pairs, vectors and boxes in the store `Base.St.store`, …).  A VM closure is the handle `.prim "\u0001<k>"` into the
+  closure table `XSt.clos` (`procedure?`, `eq?` and printing treat it like any procedure).
+* BUILT-INS are applied by `Base.applyPrim` — the SAME primitive table S uses, so a difference real-vs-`XV` is about the
+  compiler and the VM, not about the primitives; `display`/`displayln`/`newline`/`write` append to `Base.St.out`, which the
+  check compares with the real output of the unit.  `apply` spreads its last operand.  The library procedures S defines in
+  the object language (`Base.preludeSrc`: map, filter, foldl, foldr, for-each, reduce) are not built in here: the check
+  prepends them to the replayed program as its first compilation unit, compiled by the real compiler like user code.
+* OP CODES: the 47 of the core model with the same behaviour as `C01C.step` (same order of effects, same frame
+  discipline; arrays instead of lists), plus `FUNCNOARITY`, `TAILCALLNOARITY`, `CALLGLOBALNOARITY`,
+  `CALLGLOBALTAILNOARITY` (= the checked forms; the compiler emits them where it has compared the operand count itself).
+  The tie of THIS VM to the proved one is differential: on every listing inside the core set both run (`RV` and `XV`) and
+  the check requires equal outcomes.
+* `with-handler` is what the real expander makes of it: `(*reset (λ () (call-with-exception-handler h thunk)))` with a
+  handler that ends in `(*shift (λ (k) (k result)))`.  Modelled as marks on frames (a mark lives as long as the frame:
+  tail calls keep it): `*reset` marks the frame of its thunk, `call-with-exception-handler` marks the frame of its thunk
+  with the handler; an error unwinds to the innermost handler mark and runs the handler in that frame; `*shift f` unwinds
+  to the innermost reset mark and runs `f` there with the identity as the continuation argument (so `(k v)` in tail
+  position returns `v` from the reset).  Any other use of the continuation, `call/cc`, `dynamic-wind` … are outside:
+  the unit is reported as unmodelled with the reason.
 -/
+import SteelVerif.Base.Eval
 import SteelVerif.C01.BCParse
 namespace SteelVerif.C01BC
-open SteelVerif.C01C
+open SteelVerif.Base
 
-abbrev XInstr := Instr
-abbrev XSt := St (List Instr)
+structure XI where
+  op : String
+  p : Nat
+  k : Val := .void
+  name : String := ""
+deriving Inhabited
 
-def xInitSt (_prims : List (Nat × String)) : XSt := ⟨[], []⟩
-def xCodes (_rm : Remap) (_ls : List (List Line)) : Except (List String) (List (List XInstr)) := .error ["no-extension"]
-def xRunProgram (fuel : Nat) (codes : List (List XInstr)) (st : XSt) := runProgram fuel codes st
-def xShowOutcome : Res (List VVal × XSt) → String
-  | .ok (vs, _) => "ok " ++ "\u001f".intercalate (vs.map showV)
-  | .err e => "err " ++ showErr e
-  | .timeout => "timeout"
+structure XClo where
+  arity : Nat
+  rest : Bool
+  code : Array XI
+  caps : Array Val
+deriving Inhabited
+
+inductive Mark where
+  | reset
+  | handler (h : Val)
+deriving Inhabited
+
+structure XFrame where
+  sp : Nat
+  retIp : Nat
+  retCode : Array XI
+  arity : Nat
+  rest : Bool
+  caps : Array Val
+  marks : List Mark          -- innermost first
+deriving Inhabited
+
+structure XSt where
+  bst : Base.St
+  globals : List (Nat × Val)
+  clos : Array XClo
+  limit : Nat                -- slots below are built-ins of a fresh engine
+deriving Inhabited
+
+structure XCfg where
+  code : Array XI
+  ip : Nat
+  stack : Array Val
+  frames : List XFrame
+  st : XSt
+deriving Inhabited
+
+inductive XRes where
+  | next (c : XCfg)
+  | halt (v : Val) (st : XSt)
+  | err (kind : String) (payload : Val) (c : XCfg)
+  | unmod (why : String)
+
+instance : Inhabited XRes := ⟨.unmod "?"⟩
+
+def cloTag : String := "\u0001"
+def mkClo (i : Nat) : Val := .prim (cloTag ++ toString i)
+def cloIdx? : Val → Option Nat
+  | .prim n => if n.startsWith cloTag then (n.drop 1).toString.toNat? else none
+  | _ => none
+
+def controlNames : List String := ["*reset", "*shift", "call-with-exception-handler"]
+def isBuiltinName (n : String) : Bool := primNames.contains n || controlNames.contains n
+
+def errKindOf (payload : Val) : String :=
+  match payload with
+  | .pair (.sym "error") (.pair (.str m) .nil) =>
+      if m.startsWith "type mismatch" then "type" else if m.startsWith "arity mismatch" then "arity" else "other"
+  | _ => "other"
+
+def xLookupG (g : Nat) : List (Nat × Val) → Option Val
+  | [] => none
+  | (k, v) :: rest => if k = g then some v else xLookupG g rest
+
+/-- The value of global slot `g` (`name` = text column of the instruction). -/
+def globalOf (st : XSt) (g : Nat) (name : String) : Except (Option String) Val :=
+  match xLookupG g st.globals with
+  | some v => .ok v
+  | none =>
+    if g < st.limit then
+      -- steel's `void` is the void VALUE, not a procedure (`(void)` is an application of a non-procedure)
+      if name == "void" then .ok .void
+      else if isBuiltinName name then .ok (.prim name) else .error (some s!"builtin:{name}")
+    else .error none       -- free identifier
+
+def spOfX : List XFrame → Nat
+  | [] => 0
+  | f :: _ => f.sp
+def capsOfX : List XFrame → Array Val
+  | [] => #[]
+  | f :: _ => f.caps
+
+def xBindArgs (arity : Nat) (rest : Bool) (args : Array Val) : Option (Array Val) :=
+  if rest then
+    if args.size < arity - 1 then none
+    else some ((args.extract 0 (arity - 1)).push (valsToList (args.extract (arity - 1) args.size).toList))
+  else if args.size = arity then some args else none
+
+def arityErr (c : XCfg) : XRes := .err "arity" (mkErr "arity mismatch") c
+
+/-- Return from the innermost frame with the value on top of the stack (`handle_pop_pure`). -/
+def xRet (c : XCfg) : XRes :=
+  match c.stack.back? with
+  | none => .unmod "bad:empty-stack-at-return"
+  | some v =>
+    match c.frames with
+    | [] => .halt v c.st
+    | f :: rest =>
+      .next { c with code := f.retCode, ip := f.retIp, stack := (c.stack.extract 0 f.sp).push v, frames := rest }
+
+def addMark (m : Mark) : XRes → XRes
+  | .next c =>
+      match c.frames with
+      | f :: rest => .next { c with frames := { f with marks := m :: f.marks } :: rest }
+      | [] => .unmod "bad:mark-without-frame"
+  | r => r
+
+/-- Enter closure `k` with `args`; `below` = the stack under the operands.  Tail: the innermost frame is reused. -/
+def enterClo (c : XCfg) (below : Array Val) (k : XClo) (args : Array Val) (retIp : Nat) (tail : Bool) : XRes :=
+  match xBindArgs k.arity k.rest args with
+  | none => arityErr c
+  | some locals =>
+    if tail then
+      match c.frames with
+      | [] => .unmod "bad:tail-call-at-top-level"
+      | fr :: rest =>
+        .next { c with code := k.code, ip := 0, stack := (below.extract 0 fr.sp) ++ locals,
+                       frames := { fr with arity := k.arity, rest := k.rest, caps := k.caps } :: rest }
+    else
+      .next { c with code := k.code, ip := 0, stack := below ++ locals,
+                     frames := { sp := below.size, retIp := retIp, retCode := c.code, arity := k.arity,
+                                 rest := k.rest, caps := k.caps, marks := [] } :: c.frames }
+
+def dropToReset : List XFrame → Option (XFrame × List XFrame)
+  | [] => none
+  | f :: rest =>
+    let rec cut : List Mark → Option (List Mark)
+      | [] => none
+      | .reset :: ms => some ms
+      | _ :: ms => cut ms
+    match cut f.marks with
+    | some ms => some ({ f with marks := ms }, rest)
+    | none => dropToReset rest
+
+def dropToHandler : List XFrame → Option (Val × XFrame × List XFrame)
+  | [] => none
+  | f :: rest =>
+    let rec cut : List Mark → Option (Val × List Mark)
+      | [] => none
+      | .handler h :: ms => some (h, ms)
+      | _ :: ms => cut ms
+    match cut f.marks with
+    | some (h, ms) => some (h, { f with marks := ms }, rest)
+    | none => dropToHandler rest
+
+/-- Apply `f` to the `n` operands on top of `stack` (the callee is already removed).  `retIp`: where a non-tail call
+continues; `tail`: frame reuse; `primReturns`: a built-in called by `CALLGLOBALTAIL` returns from the frame at once. -/
+partial def callV (c : XCfg) (stack : Array Val) (f : Val) (n : Nat) (retIp : Nat) (tail primReturns : Bool) : XRes :=
+  if stack.size < n then .unmod "bad:stack-underflow" else
+  let below := stack.extract 0 (stack.size - n)
+  let args := stack.extract (stack.size - n) stack.size
+  let result (v : Val) (st : XSt) : XRes :=
+    if tail && primReturns then xRet { c with stack := below.push v, st := st }
+    else .next { c with ip := retIp, stack := below.push v, st := st }
+  match cloIdx? f with
+  | some i =>
+      match c.st.clos[i]? with
+      | some k => enterClo c below k args retIp tail
+      | none => .unmod "bad:closure-handle"
+  | none =>
+    match f with
+    | .prim "apply" =>
+        if n < 2 then arityErr c else
+        match listToVals 100000 args.back! with
+        | none => .err "type" (mkErr "type mismatch in apply") c
+        | some spread =>
+          let args' := (args.extract 1 (n - 1)) ++ spread.toArray
+          callV c (below ++ args') args[0]! args'.size retIp tail primReturns
+    | .prim "*reset" =>
+        if n != 1 then arityErr c else addMark .reset (callV c below args[0]! 0 retIp tail primReturns)
+    | .prim "call-with-exception-handler" =>
+        if n != 2 then arityErr c else addMark (.handler args[0]!) (callV c below args[1]! 0 retIp tail primReturns)
+    | .prim "*shift" =>
+        if n != 1 then arityErr c else
+        match dropToReset c.frames with
+        | none => .unmod "shift-without-reset"
+        | some (fr, rest) =>
+          match (cloIdx? args[0]!).bind (c.st.clos[·]?) with
+          | none => .unmod "shift-non-closure"
+          | some k =>
+            -- run the body of the shift in the frame of the reset; its continuation argument is the identity
+            enterClo { c with frames := fr :: rest } (c.stack.extract 0 fr.sp) k #[.prim "#%mk"] 0 true
+    | .prim "#%mk" => if n != 1 then .unmod "continuation-arity" else result args[0]! c.st
+    | .prim name =>
+        match applyPrim name args.toList c.st.bst with
+        | some (.ok (v, bst)) => result v { c.st with bst := bst }
+        | some (.error p) => .err (errKindOf p) p c
+        | none => .unmod s!"prim:{name}"
+    | .cont _ => .unmod "continuation-invoked"
+    | _ => .err "notproc" (mkErr "not a procedure") c
+
+def readConst (text : String) : Option Val :=
+  match Reader.read text with
+  | some [.list [.sym "quote", d]] => some (datumToVal d)
+  | some [.int n] => some (.int n)
+  | some [.bool b] => some (.bool b)
+  | some [.str s] => some (.str s)
+  | some [.chr ch] => some (.chr ch)
+  | _ => if text == "#<void>" then some .void else none
+
+def xOps : List String :=
+  modelledOpNames ++ ["FUNCNOARITY", "TAILCALLNOARITY", "CALLGLOBALNOARITY", "CALLGLOBALTAILNOARITY"]
+
+/-- One listing line → extended instruction (global slots remapped like in `toInstr`). -/
+def toXI (rm : Remap) (l : Line) : Except String XI :=
+  if !xOps.contains l.op then .error l.op
+  else if l.op == "PUSHCONST" then
+    match readConst l.text with
+    | some v => .ok { op := l.op, p := l.payload, k := v }
+    | none => .error s!"PUSHCONST:{constKind l.text}"
+  else if ["PUSH", "CALLGLOBAL", "CALLGLOBALTAIL", "CALLGLOBALNOARITY", "CALLGLOBALTAILNOARITY", "BIND", "SET"].contains l.op then
+    .ok { op := l.op, p := rm.slot l.payload, name := l.text }
+  else .ok { op := l.op, p := l.payload, name := l.text }
+
+def xCodes (rm : Remap) (ls : List (List Line)) : Except (List String) (List (Array XI)) :=
+  let rs := ls.map (fun l => l.map (toXI rm))
+  let bad := rs.flatten.filterMap (fun r => match r with | .error e => some e | .ok _ => none)
+  if bad.isEmpty then
+    .ok (rs.map (fun l => (l.filterMap (fun r => match r with | .ok i => some i | .error _ => none)).toArray))
+  else .error bad
+
+def isTwoWordCall (op : String) : Bool :=
+  op == "FUNC" || op == "FUNCNOARITY" || op == "TAILCALL" || op == "TAILCALLNOARITY"
+
+def xStep (c : XCfg) : XRes :=
+  let sp := spOfX c.frames
+  let push (v : Val) : XRes := .next { c with ip := c.ip + 1, stack := c.stack.push v }
+  match c.code[c.ip]? with
+  | none => .unmod "bad:ip-out-of-range"
+  | some ins =>
+    match ins.op with
+    | "PUSHCONST" => push ins.k
+    | "LOADINT0" => push (.int 0)
+    | "LOADINT1" => push (.int 1)
+    | "LOADINT2" => push (.int 2)
+    | "TRUE" => push (.bool true)
+    | "FALSE" => push (.bool false)
+    | "VOID" => push .void
+    | "PUSH" =>
+        match globalOf c.st ins.p ins.name with
+        | .ok v => push v
+        | .error (some why) => .unmod why
+        | .error none => .err "free" (mkErr "free identifier") c
+    | "READLOCAL" | "READLOCAL0" | "READLOCAL1" | "READLOCAL2" | "READLOCAL3" =>
+        match c.stack[sp + ins.p]? with
+        | some v => push v
+        | none => .unmod "bad:local-out-of-range"
+    | "MOVEREADLOCAL" | "MOVEREADLOCAL0" | "MOVEREADLOCAL1" | "MOVEREADLOCAL2" | "MOVEREADLOCAL3" =>
+        match c.stack[sp + ins.p]? with
+        | some v => .next { c with ip := c.ip + 1, stack := (c.stack.setIfInBounds (sp + ins.p) .void).push v }
+        | none => .unmod "bad:local-out-of-range"
+    | "READCAPTURED" =>
+        match (capsOfX c.frames)[ins.p]? with
+        | some v => push v
+        | none => .unmod "bad:capture-out-of-range"
+    | "SETLOCAL" =>
+        match c.stack.back? with
+        | none => .unmod "bad:empty-stack"
+        | some v =>
+          let s := c.stack.pop
+          match s[sp + ins.p]? with
+          | some old => .next { c with ip := c.ip + 1, stack := (s.setIfInBounds (sp + ins.p) v).push old }
+          | none => .unmod "bad:local-out-of-range"
+    | "IF" =>
+        match c.stack.back? with
+        | none => .unmod "bad:empty-stack"
+        | some v =>
+          if Base.truthy v then .next { c with ip := c.ip + 1, stack := c.stack.pop }
+          else .next { c with ip := ins.p, stack := c.stack.pop }
+    | "JMP" => .next { c with ip := ins.p }
+    | "POPJMP" | "POPPURE" => xRet c
+    | "PUREFUNC" =>
+        match c.code[c.ip + 1]?, c.code[c.ip + ins.p]? with
+        | some r, some e =>
+            if ins.p < 3 || e.op != "ECLOSURE" then .unmod "bad:closure-header" else
+            let k : XClo := { arity := e.p, rest := r.p == 1, code := c.code.extract (c.ip + 3) (c.ip + ins.p), caps := #[] }
+            .next { c with ip := c.ip + ins.p + 1, stack := c.stack.push (mkClo c.st.clos.size),
+                           st := { c.st with clos := c.st.clos.push k } }
+        | _, _ => .unmod "bad:closure-header"
+    | "NEWSCLOSURE" =>
+        match c.code[c.ip + 1]?, c.code[c.ip + 3]?, c.code[c.ip + ins.p]? with
+        | some r, some nd, some e =>
+            if nd.op != "NDEFS" || e.op != "ECLOSURE" || ins.p < 4 + nd.p then .unmod "bad:closure-header" else
+            let words := c.code.extract (c.ip + 4) (c.ip + 4 + nd.p)
+            let caps? := words.toList.mapM (fun w =>
+              if w.op == "COPYCAPTURESTACK" then c.stack[sp + w.p]?
+              else if w.op == "COPYCAPTURECLOSURE" then (capsOfX c.frames)[w.p]? else none)
+            match caps? with
+            | none => .unmod "bad:capture-word"
+            | some caps =>
+              let k : XClo := { arity := e.p, rest := r.p == 1,
+                                code := c.code.extract (c.ip + 4 + nd.p) (c.ip + ins.p), caps := caps.toArray }
+              .next { c with ip := c.ip + ins.p + 1, stack := c.stack.push (mkClo c.st.clos.size),
+                             st := { c.st with clos := c.st.clos.push k } }
+        | _, _, _ => .unmod "bad:closure-header"
+    | "NEWBOX" =>
+        match c.stack.back? with
+        | none => .unmod "bad:empty-stack"
+        | some v =>
+          let bst := c.st.bst
+          .next { c with ip := c.ip + 2, stack := c.stack.pop.push (.box bst.store.size),
+                         st := { c.st with bst := { bst with store := bst.store.push v } } }
+    | "UNBOX" =>
+        match c.stack.back? with
+        | some (.box l) =>
+            match c.st.bst.store[l]? with
+            | some v => .next { c with ip := c.ip + 2, stack := c.stack.pop.push v }
+            | none => .unmod "bad:box"
+        | some _ => .err "type" (mkErr "type mismatch in unbox") c
+        | none => .unmod "bad:empty-stack"
+    | "SETBOX" =>
+        if c.stack.size < 2 then .unmod "bad:empty-stack" else
+        match c.stack[c.stack.size - 2]!, c.stack.back! with
+        | .box l, v =>
+            let bst := c.st.bst
+            match bst.store[l]? with
+            | some old =>
+                .next { c with ip := c.ip + 2, stack := c.stack.pop.pop.push old,
+                               st := { c.st with bst := { bst with store := bst.store.setIfInBounds l v } } }
+            | none => .unmod "bad:box"
+        | _, _ => .err "type" (mkErr "type mismatch in set-box!") c
+    | "FUNC" | "FUNCNOARITY" =>
+        match c.stack.back? with
+        | none => .unmod "bad:empty-stack"
+        | some f => callV c c.stack.pop f ins.p (c.ip + 1) false false
+    | "TAILCALL" | "TAILCALLNOARITY" =>
+        match c.stack.back? with
+        | none => .unmod "bad:empty-stack"
+        | some f => callV c c.stack.pop f ins.p (c.ip + 1) true false
+    | "CALLGLOBAL" | "CALLGLOBALNOARITY" =>
+        match globalOf c.st ins.p ins.name, c.code[c.ip + 1]? with
+        | .ok f, some w => if isTwoWordCall w.op then callV c c.stack f w.p (c.ip + 2) false false else .unmod "bad:call-word"
+        | .error (some why), _ => .unmod why
+        | .error none, _ => .err "free" (mkErr "free identifier") c
+        | _, none => .unmod "bad:call-word"
+    | "CALLGLOBALTAIL" | "CALLGLOBALTAILNOARITY" =>
+        match globalOf c.st ins.p ins.name, c.code[c.ip + 1]? with
+        | .ok f, some w => if isTwoWordCall w.op then callV c c.stack f w.p (c.ip + 2) true true else .unmod "bad:call-word"
+        | .error (some why), _ => .unmod why
+        | .error none, _ => .err "free" (mkErr "free identifier") c
+        | _, none => .unmod "bad:call-word"
+    | "TCOJMP" =>
+        match c.frames with
+        | [] => .unmod "bad:tcojmp-at-top-level"
+        | fr :: _ =>
+          if c.stack.size < ins.p then .unmod "bad:stack-underflow" else
+          let args := c.stack.extract (c.stack.size - ins.p) c.stack.size
+          match xBindArgs fr.arity fr.rest args with
+          | some locals => .next { c with ip := 0, stack := (c.stack.extract 0 fr.sp) ++ locals }
+          | none => arityErr c
+    | "POPSINGLE" => .next { c with ip := c.ip + 1, stack := c.stack.pop }
+    | "BEGINSCOPE" | "LetVar" | "SDEF" | "EDEF" | "PASS" => .next { c with ip := c.ip + 1 }
+    | "LETENDSCOPE" =>
+        match c.stack.back? with
+        | none => .unmod "bad:empty-stack"
+        | some v =>
+          if c.stack.size ≤ sp + ins.p then .unmod "bad:scope" else
+          .next { c with ip := c.ip + 1, stack := (c.stack.extract 0 (sp + ins.p)).push v }
+    | "BIND" =>
+        match c.stack.back? with
+        | none => .unmod "bad:empty-stack"
+        | some v =>
+          .next { c with ip := c.ip + 1, stack := c.stack.pop,
+                         st := { c.st with globals := (ins.p, v) :: c.st.globals } }
+    | "SET" =>
+        match c.stack.back?, globalOf c.st ins.p ins.name with
+        | some v, .ok old =>
+            .next { c with ip := c.ip + 1, stack := c.stack.pop.push old,
+                           st := { c.st with globals := (ins.p, v) :: c.st.globals } }
+        | some _, .error (some why) => .unmod why
+        | some _, .error none => .err "free" (mkErr "free identifier") c
+        | none, _ => .unmod "bad:empty-stack"
+    | other => .unmod s!"bad:dispatch:{other}"
+
+inductive XOut where
+  | ok (v : Val) (st : XSt)
+  | err (kind : String) (st : XSt)
+  | timeout
+  | unmod (why : String)
+
+/-- Run one top-level instruction sequence; an error goes to the innermost handler mark, if any. -/
+def xRun : Nat → XCfg → XOut
+  | 0, _ => .timeout
+  | fuel + 1, c =>
+    match xStep c with
+    | .next c' => xRun fuel c'
+    | .halt v st => .ok v st
+    | .unmod why => .unmod why
+    | .err kind payload ce =>
+      match dropToHandler ce.frames with
+      | none => .err kind ce.st
+      | some (h, fr, rest) =>
+        match (cloIdx? h).bind (ce.st.clos[·]?) with
+        | none => .unmod "handler-non-closure"
+        | some k =>
+          match enterClo { ce with frames := fr :: rest } (ce.stack.extract 0 fr.sp) k #[payload] 0 true with
+          | .next c' => xRun fuel c'
+          | _ => .err kind ce.st
+
+def xInitSt (prims : List (Nat × String)) : XSt :=
+  { bst := {}, globals := [], clos := #[], limit := ((prims.find? (·.2 == "#builtins")).map (·.1)).getD 0 }
+
+structure XProgRes where
+  line : String          -- `ok v…` | `err kind` | `timeout` | `- reason`
+  out : String
+  st : Option XSt
+
+def xRunProgram (fuel : Nat) (codes : List (Array XI)) (st : XSt) : XProgRes :=
+  let out0 := st.bst.out.length
+  let newOut (s : XSt) : String := String.join ((s.bst.out.take (s.bst.out.length - out0)).reverse)
+  let rec go (cs : List (Array XI)) (st : XSt) (vals : List String) : XProgRes :=
+    match cs with
+    | [] => { line := "ok " ++ "\u001f".intercalate vals, out := newOut st, st := some st }
+    | code :: rest =>
+      match xRun fuel { code := code, ip := 0, stack := #[], frames := [], st := st } with
+      | .ok v st' => go rest st' (vals ++ [showVal st'.bst.store true v])
+      | .err kind st' => { line := "err " ++ kind, out := newOut st', st := none }
+      | .timeout => { line := "timeout", out := "", st := none }
+      | .unmod why => { line := "- " ++ why, out := "", st := none }
+  go codes st []
 
 end SteelVerif.C01BC
